@@ -9,6 +9,7 @@ import (
 	"math"
 	"sort"
 	"testing"
+	"verif/harness/wire"
 
 	"pgregory.net/rapid"
 	"verif/harness/hx"
@@ -139,4 +140,186 @@ func TestC10Core(t *testing.T) {
 			rec.Sample(d)
 		}
 	})
+}
+
+// TestC10Session: UDPSession.SetMtu with any int, before and during generated
+// lossy traffic, for every cipher / FEC overhead combination. At the
+// PacketConn boundary every datagram (data, parity, OOB) must fit the last
+// MTU SetMtu accepted (default 1400, capped at 1500).
+func TestC10Session(t *testing.T) {
+	rec := hx.NewRecorder(t)
+	rapid.Check(t, func(rt *rapid.T) {
+		cfg := drawPairCfg(rt, pairGenOpts{ForceDialed: true})
+		cfg.Opts[0].MTU, cfg.Opts[1].MTU = 0, 0
+		cfg.Opts[0].Stream, cfg.Opts[1].Stream = true, true // chunking changes with the MTU: boundaries are not the subject here
+		fs := sim.DrawFateScript(rt, sim.FateOpts{MaxExplicit: 8, MaxRegimes: 2, MaxRegLen: 80, MaxDelay: 300, MaxLossPm: 200})
+		// MTUs a few bytes above the minimum leave 1..40 bytes per segment: such
+		// cases carry little data so that they stay cheap and the bound stays honest
+		tiny := rapid.Bool().Draw(rt, "tinyMTUs")
+		maxTotal := 60_000
+		if tiny {
+			maxTotal = 2_500
+		}
+		app := drawSessApps(rt, pairMSS(cfg), 20, maxTotal)
+		every := rapid.IntRange(1, 6).Draw(rt, "every")
+		nChanges := rapid.IntRange(1, 6).Draw(rt, "nChanges")
+		accepted, refused, shrinks, parityAfterShrink := 0, 0, 0, 0
+		rapid.SyncTest(rt, func(rt *rapid.T) {
+			s := sim.NewSessSim(cfg.ClockOff, cfg.EntropySeed)
+			p, err := sim.NewPair(s, cfg, app)
+			if err != nil {
+				rt.Fatalf("setup: %v", err)
+			}
+			defer p.Finish(nil)
+			setPairLinks(s, p, fs)
+			model := [2]int{1400, 1400}
+			prevModel := [2]int{1400, 1400}
+			parityAllowance := [2]int{} // parity packets of the group that was unfinished at the last shrink
+			minOK := sessMinMTU(p.Crypto, cfg.FEC[0][0] > 0)
+			s.OnSent = func(d *sim.Sent, from, to string, f *sim.Fate) error {
+				e := 0
+				if from == p.Addr[1].String() {
+					e = 1
+				}
+				isParity := false
+				if cfg.FEC[e][0] > 0 {
+					if _, pl, err := p.Crypto.Open(d.Data); err == nil {
+						if fr, err := wire.ParseFrame(pl, true); err == nil && fr.Type == wire.TypeParity {
+							isParity = true
+						}
+					}
+				}
+				if isParity && parityAllowance[e] > 0 {
+					parityAllowance[e]--
+					if len(d.Data) > model[e] && len(d.Data) <= prevModel[e] && hx.IsKnown(c10KeyParity) {
+						parityAfterShrink++
+						return nil // listed finding: parity of the group that straddles the shrink
+					}
+				}
+				if len(d.Data) > model[e] {
+					kind := "datagram"
+					if isParity {
+						kind = "parity packet"
+					}
+					return fmt.Errorf("%s of %d bytes handed to the PacketConn, the session's MTU is %d", kind, len(d.Data), model[e])
+				}
+				return nil
+			}
+			changes, reads := 0, 0
+			change := func() {
+				e := rapid.IntRange(0, 1).Draw(rt, "end")
+				v := drawAnyMTU(rt, "mtu")
+				if tiny {
+					if rapid.Bool().Draw(rt, "nearMin") {
+						v = minOK + rapid.IntRange(-2, 40).Draw(rt, "aroundMin")
+					}
+				} else if v >= minOK && v < minOK+150 {
+					v += 150
+				}
+				s.Quiesce()
+				ok := p.Sess[e].SetMtu(v)
+				changes++
+				if ok {
+					accepted++
+					nv := min(v, 1500)
+					if nv < model[e] {
+						shrinks++
+						prevModel[e] = max(prevModel[e], model[e])
+						parityAllowance[e] = cfg.FEC[e][1]
+					}
+					model[e] = nv
+					if v < minOK {
+						s.Fail("SetMtu(%d) accepted; with this cipher/FEC layout a KCP segment header does not fit below %d", v, minOK)
+					}
+				} else {
+					refused++
+				}
+			}
+			p.OnRead = func(r, n int, err error) {
+				reads++
+				if reads%every == 0 && changes < nChanges {
+					change()
+				}
+			}
+			if rapid.Bool().Draw(rt, "beforeTraffic") {
+				change()
+			}
+			var total int64
+			for w := 0; w < 2; w++ {
+				_, _, tt := p.Progress(w)
+				total += tt
+			}
+			segs := total/100 + 10
+			if tiny {
+				segs = total + 10 // down to one byte per segment
+			}
+			err = runPairUntilComplete(p, s, fs.EndTime(), segs, cfg.Opts[0].Interval+cfg.Opts[1].Interval+int(fs.BaseDelay[0]+fs.BaseDelay[1]))
+			if err == errScriptUnfinished {
+				rec.Class("script_unfinished_inconclusive", 1)
+				err = nil
+			}
+			if err != nil {
+				rt.Fatalf("C10 (session): %v\ncase: %+v", err, describePair(cfg, fs, app))
+			}
+		})
+		cl := []string{"cipher_" + cfg.Cipher}
+		if shrinks > 0 {
+			cl = append(cl, "mtu_shrunk_during_traffic")
+		}
+		if accepted > 0 {
+			cl = append(cl, "accepted")
+		}
+		if refused > 0 {
+			cl = append(cl, "refused")
+		}
+		if cfg.FEC[0][0] > 0 {
+			cl = append(cl, "fec_on")
+		}
+		for i := 0; i < parityAfterShrink; i++ {
+			rec.Exclude(c10KeyParity)
+		}
+		rec.Case(hx.Hash64(describePair(cfg, fs, app), every, nChanges), shrinks > 0 || refused > 0, cl...)
+		if rec.WantSample() {
+			d := describePair(cfg, fs, app)
+			d["mtu_changes"] = map[string]int{"accepted": accepted, "refused": refused, "shrinks": shrinks}
+			rec.Sample(d)
+		}
+	})
+}
+
+const c10KeyParity = "C10:parity-of-group-straddling-mtu-shrink"
+
+// TestC10KnownParityAfterShrink is the reproducer of the listed finding c10KeyParity.
+func TestC10KnownParityAfterShrink(t *testing.T) {
+	rec := hx.NewRecorder(t)
+	what := ""
+	bubble(t, func() {
+		s := sim.NewSessSim(0, 3)
+		cfg := sim.PairCfg{Cipher: "null", FEC: [2][2]int{{2, 1}, {2, 1}}, Conv: 9,
+			Opts: [2]sim.SessOpts{{SndWnd: 32, RcvWnd: 32, NoDelay: 1, Interval: 10, NC: 1, Stream: true}, {SndWnd: 32, RcvWnd: 32, NoDelay: 1, Interval: 10, NC: 1, Stream: true}}}
+		p, err := sim.NewPair(s, cfg, [2]sim.AppScript{})
+		if err != nil {
+			t.Fatal(err)
+		}
+		mtu := 1400
+		s.OnSent = func(d *sim.Sent, from, to string, f *sim.Fate) error {
+			if from == p.Addr[0].String() && len(d.Data) > mtu && what == "" {
+				what = fmt.Sprintf("FEC 2/1: after SetMtu(200) was accepted a %d-byte datagram (parity of the group begun before the shrink) went to the PacketConn", len(d.Data))
+			}
+			return nil
+		}
+		p.Sess[0].Write(make([]byte, 1300)) // first data packet of the group, cut for MTU 1400
+		s.SleepTo(30)                       // acknowledged: nothing cut for the old MTU is queued in the core any more
+		if p.Sess[0].SetMtu(200) {
+			mtu = 200
+		}
+		p.Sess[0].Write(make([]byte, 10)) // completes the group: parity is as long as its longest member
+		s.SleepTo(50)
+		p.Finish(nil)
+	})
+	rec.Case(1, true, "reproducer")
+	rec.Case(2, true, "reproducer")
+	if what != "" {
+		rec.Finding(c10KeyParity, what)
+	}
 }
